@@ -1520,6 +1520,23 @@ func genC16(g *G, sc *Scenario, tier string, seed uint64) {
 	if g.P(0.5) {
 		sc.Ops = append(sc.Ops, Op{K: "acl", DS: "client2", A: g.aclSet()})
 	}
+	hasDeny := false
+	for _, e := range c16Cell(int(seed % 10_000_000)) {
+		if m, _ := e.(map[string]any); m != nil && m["Deny"] == true {
+			hasDeny = true
+		}
+	}
+	if hasDeny {
+		// an ACL with a deny entry: every dataset through a read and a write route, spelt plainly and with a
+		// percent-escaped character
+		for _, d := range []string{"a", "ab", "b"} {
+			for _, rt := range []string{"GET /datasets/:dataset/entities", "POST /datasets/:dataset/entities", "GET /datasets/:dataset/changes"} {
+				for esc := 0; esc < 2; esc++ {
+					sc.Ops = append(sc.Ops, Op{K: "req", S: "client", DS: d, Limit: esc, M: map[string]any{"route": rt}})
+				}
+			}
+		}
+	}
 	kinds := []string{"client", "client", "client", "client", "client", "none", "admin", "expired", "wrongkey", "wrongiss", "wrongaud", "hs256", "algnone"}
 	n := g.Range(15, 45)
 	for i := 0; i < n; i++ {
@@ -1548,6 +1565,9 @@ func genC16(g *G, sc *Scenario, tier string, seed uint64) {
 			sc.Ops = append(sc.Ops, Op{K: "list"})
 		default:
 			sc.Ops = append(sc.Ops, Op{K: "req", N: g.Intn(1000), S: g.Pick(kinds), DS: g.Pick([]string{"a", "a", "ab", "b"})})
+			if g.P(0.3) {
+				sc.Ops[len(sc.Ops)-1].Limit = 1 // percent-escaped spelling of the dataset name
+			}
 		}
 	}
 	sc.Ops = append(sc.Ops, Op{K: "restart"})
